@@ -57,7 +57,7 @@ def history_strategy(max_ops=30, backends=("fs", "fsc", "mem"), overrides=False,
             S.scalar, S.nd(), S.frame(), S.series(),
             st.lists(S.scalar, max_size=3).map(lambda v: {"t": "list", "v": v}),
         )
-        pool = [sc["small"], sc["small2"], {"t": "int", "v": "7"}, {"t": "list", "v": []}]
+        pool = [sc["small"], sc["small2"], {"t": "int", "v": "7"}, {"t": "list", "v": []}, sc["none"]]
         for _ in range(n):
             # 60%: stay on the most recently touched key
             if draw(st.integers(0, 9)) < 6:
